@@ -108,7 +108,12 @@ func verifHarness_U1_ParseMessage() {
 	trail := lead
 	raw := make([]byte, 0, N+2)
 	if lead == 1 {
-		raw = append(raw, ' ')
+		// a blank before the document; in ndjson mode a blank line (what a stream chunk or an input starting with an empty line has)
+		if nd == 1 {
+			raw = append(raw, '\n')
+		} else {
+			raw = append(raw, ' ')
+		}
 	}
 	raw = append(raw, msg...)
 	if trail == 1 {
